@@ -124,8 +124,10 @@ grammar = r"""
 
     term_pair: CNAME ":" term
 
+    inst_type_pair: "'" CNAME ":" type   // type part of an instantiation
+
     inst: "{}"
-        | "{" term_pair ("," term_pair)* "}"
+        | "{" (inst_type_pair | term_pair) ("," (inst_type_pair | term_pair))* "}"
 
     type_pair: CNAME ":" type
 
@@ -376,6 +378,9 @@ class HOLTransformer(Transformer):
     def type_pair(self, name, T):
         return (str(name), T)
 
+    def inst_type_pair(self, name, T):
+        return ("'" + str(name), T)
+
     def inst(self, *args):
         return dict(args)
 
@@ -449,10 +454,14 @@ def parse_thm(s: str) -> Thm:
 
 def parse_inst(s):
     """Parse a term instantiation."""
-    inst = inst_parser.parse(s)
-    for k in inst:
-        inst[k] = infertype.type_infer(inst[k])
-    return Inst(inst)
+    pairs = inst_parser.parse(s)
+    inst = Inst()
+    for k, v in pairs.items():
+        if k.startswith("'"):
+            inst.tyinst[k[1:]] = v
+        else:
+            inst[k] = infertype.type_infer(v)
+    return inst
 
 def parse_tyinst(s):
     """Parse a type instantiation."""
